@@ -160,3 +160,31 @@ func TestVerifC11Composite(t *testing.T) {
 func TestVerifC10Composite(t *testing.T) {
 	vs.Run(t, "C10", func(c *vs.Case) error { return vw.PropC10(c, compositeFactory, "composite") })
 }
+
+func TestVerifC01RegressionsEcho(t *testing.T) {
+	vs.RunFixed(t, "C01", map[string]func() error{
+		// a hook that echoes the observed annotations (hence metacontroller's own last-applied
+		// record) back must not cause an endless delete/create loop under Recreate
+		"recreate-hook-echoes-annotations": func() error {
+			scn := vw.FixedScn("widgets", "Recreate", []string{"w0"}, 1)
+			scn.Prog.Children[0].EchoAnnotations = true
+			env, err := vw.NewEnv(scn, compositeFactory)
+			if err != nil {
+				return err
+			}
+			var last *vw.SyncTrace
+			for i := 0; i < 8; i++ {
+				last = env.SyncFresh()
+				if last.Panic != "" {
+					return vs.Violf("C01/panic", "%s", last.Panic)
+				}
+			}
+			for _, r := range last.Writes() {
+				if r.Def.Resource == "widgets" {
+					return vs.Violf("C01/no-quiescence", "after 8 syncs the controller still writes its child every sync (hot loop): %v", last.Summary())
+				}
+			}
+			return nil
+		},
+	})
+}
